@@ -144,6 +144,11 @@ add("C20", "E2-worlds", "exploration",
     "Bound: every 16th r0-signature class without conditions in quick (every 2nd in thorough), single-tuple sets and every 7th two-tuple set, cancellation points capped at 40 per request. Wall-clock 'deadline plus slack' is NOT decided. One Go-scheduler interleaving per run; schedule-quantified termination is covered by the cancel-thread scenarios of the C21/C22 scheduler harnesses.",
     "bounded exhaustive enumeration of inputs x cancellation points on the implementation with a goroutine-census oracle")
 
+add("C26", "E2-worlds", "exploration",
+    "Every RPC of the OpenFGA and AuthZEN services (discovered from the service descriptors; an RPC without a baseline request makes the check exit 2) x request shapes (streaming, with/without model id, 14 Write module spans) x target store x caller {no claims, empty client id, x, y} x grant sets written into a real access-control store, each on a fresh server: the call gets past authorization <=> the harness' own method->relation table and role closure allow it; a denied call has made no datastore call on the target store; with the k-th (or every) read of the access-control store failing the call is denied; ListStores returns exactly the stores the caller may get.",
+    "Bound: 26 RPCs / 48 shapes, grant subsets of size <=1 (<=3 in thorough) of 7 grants (13 for ListStores/CreateStore, size <=2). 'All code paths' is met per handler and request shape, not per branch. Trusted: h/c26/oracle.go (hand-written relation table), recording datastore wrapper. Write may read the target store's model before authorizing (needed to derive modules).",
+    "bounded exhaustive enumeration of (RPC, caller, grant set, fault point) on the real server with a real access-control store, against an independent grant rule")
+
 NOT_BUILT ="check not built yet in this session; see DESIGN.md §5 for the planned decision procedure"
 NA = {}
 
